@@ -21,8 +21,8 @@ type Piece struct {
 	Fmt  byte // float
 	Prec int
 	Size int
-	Args []*Term // app
-	ID   int     // opaque
+	Args []*Term     // app
+	ID   int         // opaque
 	Arr  *Term       // raw: the byte array the window reads (for extensional comparison)
 	Fn   interface{} // app: *ssa.Function
 	ArgV []Val       // app: original argument values (for unfolding)
@@ -411,7 +411,6 @@ func matchT(a, b []Piece, depth int) *Term {
 	}
 	return tFalse
 }
-
 
 // contentEq: the n bytes at offA of arrA equal the n bytes at offB of arrB. The quantified formula is named by a
 // Bool symbol (see QFact) and memoised, so that the same comparison made in a hypothesis and in a goal is the same
